@@ -9,9 +9,7 @@ package c06
 
 import (
 	"fmt"
-	"os"
 	"sort"
-	"time"
 
 	"github.com/zclconf/go-cty/cty"
 
@@ -96,15 +94,6 @@ func (Driver) Run(c *core.Ctx) {
 	}
 	var recs []rec
 	n := int64(c.N(100000, 600000))
-	var prof map[string]time.Duration
-	if os.Getenv("C06_PROFILE") != "" {
-		prof = map[string]time.Duration{}
-		defer func() {
-			for k, v := range prof {
-				fmt.Fprintf(os.Stderr, "PROFILE %s %v\n", k, v)
-			}
-		}()
-	}
 	for i := int64(0); i < n; i++ {
 		if !c.Want(i) {
 			continue
@@ -116,15 +105,7 @@ func (Driver) Run(c *core.Ctx) {
 		c.Begin(i, func() string {
 			return fmt.Sprintf("family %s case %d (inputs are printed with the violation)", f.name, i)
 		})
-		t0 := time.Now()
 		o := core.Guard(func() { desc = f.run(m, r) })
-		if prof != nil {
-			d := time.Since(t0)
-			prof[f.name] += d
-			if d > 200*time.Millisecond {
-				fmt.Fprintf(os.Stderr, "SLOW %s case %d: %v %s\n", f.name, i, d, clipS(desc, 300))
-			}
-		}
 		if o.Panicked {
 			// a panic that escaped the per-call guards is a bug of this driver, not of the library
 			c.Violate("driver", "unguarded panic in the workload", f.name, fmt.Sprintf("case %d", i), o.PanicMsg+"\n"+o.Stack)
